@@ -5,19 +5,19 @@ CONSTANTS
   MaxDepth = 1
   Breaks <- BreaksQ
   Degs <- DegsQ
-  MaxNpts = 5
-  Acts = {"CvSplit"}
-  PtKinds = {"gen"}
+  MaxNpts = 4
+  Acts = {"CvArith", "CvScalar"}
+  PtKinds = {"gen", "pos"}
   WtKinds = {"none", "gen"}
   ExtraNodes <- Extra0
   NodeSize = 2
   Scenario = "single"
   PrepDepth = 0
   OtherDegs <- DegsQ
-  OtherMaxNpts = 4
+  OtherMaxNpts = 3
 INVARIANT WellFormed
 PROPERTY FailedIsNoOp
-PROPERTY SplitRestricts
+
 ACTION_CONSTRAINT Log
 VIEW View
 CHECK_DEADLOCK FALSE
